@@ -16,6 +16,7 @@ import (
 	"path/filepath"
 	"runtime"
 	"sort"
+	"strconv"
 	"strings"
 	"sync"
 	"time"
@@ -30,10 +31,16 @@ import (
 	"verifharness/internal/hx"
 )
 
-const (
-	watchdog  = 3 * time.Second
-	corpusDir = "/verif/corpus/C14"
-)
+const corpusDir = "/verif/corpus/C14"
+
+// watchdog per pool call: 3 s, or VERIF_WATCHDOG_MS (the check re-runs hanging cases once with a longer one, so that a
+// loaded machine is not reported as a deadlock)
+var watchdog = func() time.Duration {
+	if v, err := strconv.Atoi(os.Getenv("VERIF_WATCHDOG_MS")); err == nil && v > 0 {
+		return time.Duration(v) * time.Millisecond
+	}
+	return 3 * time.Second
+}()
 
 // ---------- mocks ----------
 
@@ -192,7 +199,8 @@ type stepJ struct {
 
 type caseJ struct {
 	K     string    `json:"k"`
-	Cfg   [4]uint64 `json:"cfg"`
+	Cfg   [4]uint64 `json:"cfg"`            // the EFFECTIVE configuration
+	Dflt  bool      `json:"dflt,omitempty"` // MinReplacementFeeDifference was passed as 0: NewTransactionPool must default it to cfg[3] = 1
 	Steps []stepJ   `json:"steps"`
 }
 
@@ -220,12 +228,14 @@ type runner struct {
 	steps     []stepJ
 }
 
-func newRunner(cfg [4]uint64) *runner {
+func newRunner(cfg [4]uint64) *runner { return newRunnerD(cfg, false) }
+
+func newRunnerD(cfg [4]uint64, dflt bool) *runner {
 	r := &runner{cfg: cfg, txs: map[int]*txInfo{}, byID: map[string]int{}, byAddr: map[string]int{},
 		abi: &abiMock{verdict: map[string]int{}, armed: map[string]bool{}, holds: map[string]*hold{}}, conn: &connMock{failTx: map[string]bool{}},
 		last: snapJ{All: []int{}, Queue: []int{}, Qhead: -1, Lists: []listJ{}}}
 	r.pool = txpool.NewTransactionPool(&txpool.TransactionPoolConfig{MaxTransactions: int(cfg[0]), MaxTransactionsPerAccount: int(cfg[1]),
-		MinEntranceFeePriority: cfg[2], MinReplacementFeeDifference: cfg[3]})
+		MinEntranceFeePriority: cfg[2], MinReplacementFeeDifference: map[bool]uint64{false: cfg[3], true: 0}[dflt && cfg[3] == 1]})
 	// database and chain are only stored by Init and never read by the pool
 	if err := r.pool.Init(context.Background(), nopLog{}, nil, nil, r.conn, r.abi); err != nil {
 		panic(err)
@@ -238,8 +248,12 @@ func build(num, sender int, nonce, fee uint64) *blockchain.Transaction {
 	for i := range pk {
 		pk[i] = byte(sender)
 	}
+	params := []byte{byte(num >> 24), byte(num >> 16), byte(num >> 8), byte(num)}
+	if num%5 == 0 { // every fifth transaction is about twice as large: same fee, half the fee priority
+		params = append(params, make([]byte, 120)...)
+	}
 	tx := &blockchain.Transaction{Module: "token", Command: "transfer", Nonce: nonce, Fee: fee, SenderPublicKey: pk,
-		Params: []byte{byte(num >> 24), byte(num >> 16), byte(num >> 8), byte(num)}, Signatures: []codec.Hex{make([]byte, 64)}}
+		Params: params, Signatures: []codec.Hex{make([]byte, 64)}}
 	tx.Init()
 	return tx
 }
@@ -559,6 +573,25 @@ func (g *gen) pickAdd(prefer []int) (*txInfo, int, int) {
 		roll = 0
 	}
 	switch {
+	case roll >= 44 && roll < 50 && len(in) > 0: // same slot, LOWER fee but (smaller transaction) possibly higher fee priority
+		old := g.run.txs[g.pick(in)]
+		for (g.next+1)%5 == 0 {
+			g.next++ // the newcomer is not a padded one
+		}
+		fee := old.fee * uint64(55+g.r.Intn(40)) / 100
+		t = g.newTx(old.sender, old.nonce, fee)
+	case roll >= 40 && roll < 44: // uint64 edges: fees within the replacement difference of 2^64, nonces 2^64-2, 2^64-1
+		s := 1 + g.r.Intn(3)
+		nonce := ^uint64(0) - uint64(g.r.Intn(2))
+		fee := ^uint64(0) - uint64(g.r.Intn(int(g.run.cfg[3])+2))
+		if g.r.Bool() && len(in) > 0 {
+			old := g.run.txs[g.pick(in)]
+			s, nonce = old.sender, old.nonce
+			if g.r.Bool() {
+				fee = uint64(g.r.Intn(50))
+			}
+		}
+		t = g.newTx(s, nonce, fee)
 	case roll >= 50 && roll < 70 && len(in) > 0: // replacement attempt around the threshold
 		old := g.run.txs[g.pick(in)]
 		md := int64(g.run.cfg[3])
@@ -674,7 +707,8 @@ func genCase(rng *hx.Rng, maxLen int) caseJ {
 	if rng.Intn(3) == 0 { // a third of the cases: one dominant sender and room for a run of three
 		focus, cfg[0], cfg[1] = 1+rng.Intn(3), 3, 3
 	}
-	g := &gen{r: rng, run: newRunner(cfg), used: map[[2]int]bool{}, focus: focus}
+	dflt := cfg[3] == 1 && rng.Bool() // as the engine does: leave the difference to the pool's own default
+	g := &gen{r: rng, run: newRunnerD(cfg, dflt), used: map[[2]int]bool{}, focus: focus}
 	nops := 4
 	if maxLen > 4 {
 		nops += rng.Intn(maxLen - 3)
@@ -709,7 +743,7 @@ func genCase(rng *hx.Rng, maxLen int) caseJ {
 			}
 		}
 	}
-	return caseJ{K: "seq", Cfg: cfg, Steps: g.run.steps}
+	return caseJ{K: "seq", Cfg: cfg, Dflt: dflt, Steps: g.run.steps}
 }
 
 // ---------- replay ----------
@@ -717,6 +751,7 @@ func genCase(rng *hx.Rng, maxLen int) caseJ {
 func replayCase(line string) caseJ {
 	var in struct {
 		Cfg   [4]uint64
+		Dflt  bool
 		Steps []struct {
 			Op  []json.RawMessage
 			Par int
@@ -725,7 +760,7 @@ func replayCase(line string) caseJ {
 	if err := json.Unmarshal([]byte(line), &in); err != nil {
 		panic(err)
 	}
-	r := newRunner(in.Cfg)
+	r := newRunnerD(in.Cfg, in.Dflt)
 	arg := func(m json.RawMessage, v interface{}) {
 		if err := json.Unmarshal(m, v); err != nil {
 			panic(err)
@@ -809,7 +844,7 @@ func replayCase(line string) caseJ {
 	if r.inflight && !r.dead {
 		r.finish([][2]int{})
 	}
-	return caseJ{K: "seq", Cfg: in.Cfg, Steps: r.steps}
+	return caseJ{K: "seq", Cfg: in.Cfg, Dflt: in.Dflt, Steps: r.steps}
 }
 
 func replayFile(path string, emit func(caseJ)) {
